@@ -2747,29 +2747,22 @@ impl ModuleGraph {
     &'a self,
     specifier: &'a ModuleSpecifier,
   ) -> &'a ModuleSpecifier {
-    const MAX_REDIRECTS: usize = 10;
     let mut redirected_specifier = specifier;
-    if let Some(specifier) = self.redirects.get(specifier) {
-      // only allocate if there's a redirect
-      let mut seen = HashSet::with_capacity(MAX_REDIRECTS);
-      seen.insert(redirected_specifier);
-      seen.insert(specifier);
-      redirected_specifier = specifier;
-      while let Some(specifier) = self.redirects.get(redirected_specifier) {
-        if !seen.insert(specifier) {
-          log::warn!(
-            "An infinite loop of redirections detected.\n  Original specifier: {specifier}"
-          );
-          break;
-        }
-        redirected_specifier = specifier;
-        if seen.len() >= MAX_REDIRECTS {
-          log::warn!(
-            "An excessive number of redirections detected.\n  Original specifier: {specifier}"
-          );
-          break;
-        }
+    // only allocate if there's more than one redirect
+    let mut seen: Option<HashSet<&ModuleSpecifier>> = None;
+    // an entry takes priority over a redirect, like when walking the graph
+    while !self.module_slots.contains_key(redirected_specifier)
+      && let Some(specifier_to) = self.redirects.get(redirected_specifier)
+    {
+      let seen = seen.get_or_insert_with(|| HashSet::from([specifier]));
+      if !seen.insert(specifier_to) {
+        log::warn!(
+          "An infinite loop of redirections detected.\n  Original specifier: {specifier}"
+        );
+        // there is nothing to resolve to
+        return specifier;
       }
+      redirected_specifier = specifier_to;
     }
     redirected_specifier
   }
@@ -2877,7 +2870,10 @@ impl ModuleGraph {
   {
     self.module_slots.iter().filter_map(to_result).chain(
       self.redirects.iter().filter_map(|(specifier, found)| {
-        let module_slot = self.module_slots.get(found)?;
+        if self.module_slots.contains_key(specifier) {
+          return None; // already listed by its own entry
+        }
+        let module_slot = self.module_slots.get(self.resolve(found))?;
         to_result((specifier, module_slot))
       }),
     )
